@@ -9,6 +9,7 @@ CONSTANTS
   MaxOps = 5
   Faults = {}
   AllowGap = FALSE
+  Dups = FALSE
   AllowRestart = TRUE
   AllowReorg = TRUE
   Rollups = {1, 3}
